@@ -3,6 +3,7 @@ package main
 import (
 	"fmt"
 	"go/types"
+	"sort"
 	"strings"
 
 	"golang.org/x/tools/go/ssa"
@@ -38,6 +39,78 @@ func runC20(p *Prog, r *Report) {
 	}
 	for _, fn := range impls {
 		checkReceiver(p, r, fn)
+	}
+	r.Min("C20.R4", 2)
+	checkReaderChain(p, r)
+}
+
+// checkReaderChain (R4): what the receive loop classifies is what the socket returned. Every
+// ReadPacketData in the repository either reads the socket itself or is a pure pass-through of its
+// delegate: one delegate call whose three results are returned untouched - an adapter that wraps the
+// error (fmt.Errorf("...: %w", err)) defeats the identity and net.Error tests of the classification.
+func checkReaderChain(p *Prog, r *Report) {
+	var readers []*ssa.Function
+	for _, fn := range p.Implementers(modPath+"/pkg/packet", "Reader", "ReadPacketData") {
+		if fn.Blocks != nil && fn.Synthetic == "" {
+			readers = append(readers, fn)
+		}
+	}
+	wrappers := 0
+	for _, fn := range readers {
+		delegates := false
+		for _, b := range fn.Blocks {
+			for _, in := range b.Instrs {
+				if c, ok := in.(*ssa.Call); ok && calleeName(&c.Call) == "ReadPacketData" {
+					delegates = true
+				}
+			}
+		}
+		if !delegates {
+			continue
+		}
+		wrappers++
+		ok, why := true, ""
+		fp := PathsInl(fn)
+		if len(fp.Headers) > 0 || fp.Truncated {
+			r.Undecided("C20.R4", FuncName(fn)+"/pass-through", p.Pos(fn.Pos()), "the reader adapter is loop-free", "loop in a reader adapter")
+			continue
+		}
+		for _, s := range fp.Segs {
+			if !s.Returns() {
+				continue
+			}
+			var dc *ssa.Call
+			n := 0
+			for _, e := range s.Events {
+				if e.Kind == EvCall && e.Call != nil && calleeName(e.Call) == "ReadPacketData" {
+					n++
+					dc, _ = e.Instr.(*ssa.Call)
+				}
+			}
+			ret := s.Exit.(*ssa.Return)
+			if n != 1 || dc == nil || len(ret.Results) != 3 {
+				ok, why = false, fmt.Sprintf("a path performs %d delegate reads", n)
+				continue
+			}
+			for i, rv := range ret.Results {
+				ex, isEx := s.Resolve(rv).(*ssa.Extract)
+				if !isEx || ex.Tuple != ssa.Value(dc) || ex.Index != i {
+					ok, why = false, fmt.Sprintf("result #%d is %s, not the delegate's result (a wrapped error is no longer recognised by the receive loop's classification)", i, s.Term(rv))
+				}
+			}
+		}
+		r.Check(ok, "C20.R4", FuncName(fn)+"/pass-through", p.Pos(fn.Pos()), "a reader adapter returns exactly what its delegate's read returned", why)
+	}
+	r.Check(len(readers) >= 1, "C20.R4", "readers", "-", "the repository's packet readers are found (socket source; adapters, if any, are pure pass-throughs)", fmt.Sprintf("%d readers, %d adapters", len(readers), wrappers))
+	// the rate-limit adapter declares no reader of its own (C15.R3 clause re-evaluated)
+	sub := NewReport("C20", "quick")
+	runC15(p, sub)
+	for _, o := range sub.Obs {
+		if o.Rule == "C15.R3" && strings.HasSuffix(o.Construct, "/methods") {
+			o2 := *o
+			o2.Rule = "C20.R4"
+			r.Obs = append(r.Obs, &o2)
+		}
 	}
 }
 
@@ -333,6 +406,33 @@ func checkReceiver(p *Prog, r *Report, fn *ssa.Function) {
 		for _, w := range x.want {
 			r.Check(x.pt.Has(w), "C20.R3", FuncName(x.f)+"/"+w, p.Pos(x.f.Pos()), "the "+x.cls+" class contains "+w, "accepted atoms: "+strings.Join(x.pt.Names(), ", "))
 		}
+	}
+	// the classes are closed: an error outside them is "unknown" - reported once, and reading continues.
+	// Adding an errno that is in fact transient (ENETDOWN on a link flap) to the fatal class silently ends
+	// reception; adding one to the transient class hides failures.
+	allowed := map[string]map[string]bool{
+		"transient": {"syscall.EAGAIN": true, "syscall.EWOULDBLOCK": true, "syscall.ECONNRESET": true, "syscall.EINTR": true, "net.Error.Timeout": true, "os.ErrDeadlineExceeded": true},
+		"fatal": {"io.EOF": true, "io.ErrUnexpectedEOF": true, "io.ErrNoProgress": true, "io.ErrClosedPipe": true, "io.ErrShortBuffer": true, "syscall.EBADF": true,
+			"use of closed file": true, "os.ErrClosed": true, "net.ErrClosed": true, "use of closed network connection": true},
+	}
+	for _, x := range []struct {
+		pt  *PredTable
+		f   *ssa.Function
+		cls string
+	}{{tt, temp, "transient"}, {ft, fatal, "fatal"}} {
+		if x.pt.Undecided != "" {
+			continue
+		}
+		var extra []string
+		for k := range x.pt.Accept {
+			for _, alt := range strings.Split(k, "|") {
+				if !allowed[x.cls][alt] {
+					extra = append(extra, alt)
+				}
+			}
+		}
+		sort.Strings(extra)
+		r.Check(len(extra) == 0, "C20.R3", FuncName(x.f)+"/closed-class", p.Pos(x.f.Pos()), "the "+x.cls+" class holds only errors that denote "+map[string]string{"transient": "would-block, timeout, interruption or connection reset", "fatal": "a closed or broken socket"}[x.cls], "also in the class: "+strings.Join(extra, ", "))
 	}
 	if tt.Undecided == "" && ft.Undecided == "" {
 		var both []string
